@@ -45,8 +45,8 @@ MUTANTS = [
   ""),
  ("C07-lake-no-slicer", "C07", "compiler/optimizer/optimizer.go",
   "\t\t\tif orderRequired {\n\t\t\t\tseq = append(seq, &dag.Slicer{Kind: \"Slicer\"})", "\t\t\tif orderRequired && false {\n\t\t\t\tseq = append(seq, &dag.Slicer{Kind: \"Slicer\"})"),
- ("C07-lake-pool-order-flipped", "C07", "compiler/optimizer/optimizer.go",
-  "\treturn pool.SortKeys, nil\n", "\tflipped := append(order.SortKeys(nil), pool.SortKeys...)\n\tfor i := range flipped {\n\t\tif flipped[i].Order == order.Asc {\n\t\t\tflipped[i].Order = order.Desc\n\t\t} else {\n\t\t\tflipped[i].Order = order.Asc\n\t\t}\n\t}\n\treturn flipped, nil\n"),
+ ("C07-lake-pushed-filter-lost", "C07", "compiler/optimizer/optimizer.go",
+  "\t\t\t\tFilter:    filter,\n\t\t\t\tKeyPruner: lister.KeyPruner,", "\t\t\t\tFilter:    nil,\n\t\t\t\tKeyPruner: lister.KeyPruner,"),
  ("C08-head-not-merged", "C08", "compiler/optimizer/parallelize.go", None, None),
  ("C19-late-error-not-recorded", "C19", "service/handlers.go",
   "\t\twriter.WriteError(err)\n\t\tstatus.setError(err)\n", "\t\twriter.WriteError(err)\n"),
